@@ -188,7 +188,7 @@ func classifyDoc(d *ddiff, s string, di *docInfo) string {
 		if d.pd != nil {
 			return classifyPathDiff(d.pd, d.pstr, d.pin)
 		}
-		return classifyUnparseableOutput(d.pstr, d.pin, "", nil)
+		return classifyUnparseableOutput(d.pstr, d.pin, d.pout, nil)
 	case d.cat == "attr-dropped:xlink":
 		return knownSig["K25"] + ":xlink"
 	case d.cat == "attr-dropped:xml":
@@ -232,7 +232,8 @@ func classifyIllFormedDoc(pe *parseErr, s string, di *docInfo, out string) strin
 	sh := docShapes(s, di)
 	msg := pe.err.Error()
 	switch {
-	case sh["N07"] && (strings.Contains(msg, "invalid character entity") || strings.Contains(msg, "unescaped <") || strings.Contains(msg, "< in attribute") || strings.Contains(msg, "expected") || strings.Contains(msg, "bad ") || strings.Contains(msg, "invalid")):
+	case sh["N07"]:
+		// a raw '<' or '&' from a decoded reference derails the parse in many ways
 		return knownSig["N07"]
 	case sh["K43"] && strings.Contains(msg, "]]>"):
 		return knownSig["K43"]
